@@ -58,7 +58,10 @@ func NewExecutionContext(executable *utils.Binary, dir string, env variables.Con
 
 // Up executes tasks defined to run once before first usage of the context
 func (c *ExecutionContext) Up() error {
+	verifYield("ctx-up-enter", c)
 	c.onceUp.Do(func() {
+		verifNote("ctx-up-begin", c)
+		defer verifNote("ctx-up-end", c)
 		for _, command := range c.up {
 			err := c.runServiceCommand(command)
 			if err != nil {
